@@ -28,8 +28,8 @@ import (
 // ###### Common Globals #######
 
 const (
-	Name        = "julian"
-	Desc        = "Julian"
+	Name        = "gregorian_proleptic"
+	Desc        = "Gregorian (proleptic)"
 	Epoch       = 1721426
 	MinMonthLen = 29
 	MaxMonthLen = 31
